@@ -771,6 +771,12 @@ class Translator:
     def out(self, s):
         self.lines.append('    ' * self.ind + s)
 
+    def ghost_get(self, key):
+        g = self.ghosts.get(key)
+        if g is not None:
+            self.ghost_used.add(key[1])
+        return g
+
     def propagate(self):
         """an exception thrown by a callee leaves this function too (no try/catch is ever translated)"""
         if self.called:
@@ -1159,17 +1165,20 @@ class Translator:
         itext = (inc if textual else (self.e(inc) if inc else ''))
         self.out('/* loop %d: %s */' % (k, self._loc(n)))
         if c is None:
+            g = self.ghost_get((cn, 'loop %d pre' % k))
+            if g:
+                self.out(g)
             self.brk.append(('loop', None))
             self.out('for (; %s; %s)' % (ctext, itext))
             self.out('{')
             self.ind += 1
             for p in pre or []:
                 self.out(p)
-            g = self.ghosts.get((cn, 'loop %d body_begin' % k))
+            g = self.ghost_get((cn, 'loop %d body_begin' % k))
             if g:
                 self.out(g)
             self.block(body)
-            g = self.ghosts.get((cn, 'loop %d body_end' % k))
+            g = self.ghost_get((cn, 'loop %d body_end' % k))
             if g:
                 self.out(g)
             self.ind -= 1
@@ -1178,7 +1187,7 @@ class Translator:
             return
         self.cur.loops[k].contract = c
         tag = '%s/loop %d' % (cn, k)
-        g = self.ghosts.get((cn, 'loop %d pre' % k))
+        g = self.ghost_get((cn, 'loop %d pre' % k))
         if g:
             self.out(g)
         for nm, ex in c['invariant']:
@@ -1197,7 +1206,7 @@ class Translator:
         self.ind += 1
         for p in pre or []:
             self.out(p)
-        g = self.ghosts.get((cn, 'loop %d body_begin' % k))
+        g = self.ghost_get((cn, 'loop %d body_begin' % k))
         if g:
             self.out(g)
         self.brk.append(('cloop', k))
@@ -1206,7 +1215,7 @@ class Translator:
         self.out('verif_cont_%d: ;' % k)
         if itext:
             self.out(itext + ';')
-        g = self.ghosts.get((cn, 'loop %d body_end' % k))
+        g = self.ghost_get((cn, 'loop %d body_end' % k))
         if g:
             self.out(g)
         for nm, ex in c['invariant']:
@@ -1219,7 +1228,7 @@ class Translator:
         self.ind -= 1
         self.out('}')
         self.out('verif_brk_%d: ;' % k)
-        g = self.ghosts.get((cn, 'loop %d post' % k))
+        g = self.ghost_get((cn, 'loop %d post' % k))
         if g:
             self.out(g)
 
@@ -1317,7 +1326,7 @@ class Translator:
         self.lines, self.ind, self.brk = [], 0, []
         self.called = False
         self.pre, self.no_hoist = [], False
-        self.pre, self.no_hoist = [], False
+        self.ghost_used = set()
         rt = d['type']['qualType']
         p = rt.find('(')
         rts = rt[:p].strip()
@@ -1369,13 +1378,16 @@ class Translator:
                     self.abort(ci, 'base/delegating constructor initialiser')
                 x = [y for y in ci.get('inner', []) if y]
                 self.out('self->%s = %s;' % (fld['name'], self.e(x[0])))
-        g = self.ghosts.get((cname, 'entry'))
+        g = self.ghost_get((cname, 'entry'))
         if g:
             self.out(g)
         for x in [y for y in body[0].get('inner', []) if y]:
             self.s(x)
         self.ind -= 1
         self.out('}')
+        for (gc, anchor) in self.ghosts:
+            if gc == cname and anchor not in self.ghost_used:
+                raise ExtractError('%s: ghost anchor %r does not exist in the extracted function' % (f.qual, anchor))
         f.text = f.proto() + '\n' + '\n'.join(self.lines) + '\n'
         self.cur = None
         return f
